@@ -83,14 +83,13 @@ theorem foldl_last (xs : List α) (o : Option α) :
       | some v => rfl
 
 theorem foldl_firstLast (xs : List α) (a b : Option α) :
-    xs.foldl (fun (st : Option α × Option α) v =>
-        ((match st.1 with | none => some v | some f => some f), some v)) (a, b) =
+    xs.foldl Src.firstLastStep (a, b) =
       ((match a with | some f => some f | none => xs.head?),
        (match xs.getLast? with | some v => some v | none => b)) := by
   induction xs generalizing a b with
   | nil => cases a <;> rfl
   | cons x xs ih =>
-    simp only [List.foldl_cons, ih]
+    simp only [List.foldl_cons, Src.firstLastStep, ih]
     cases xs with
     | nil => cases a <;> rfl
     | cons y ys =>
@@ -225,13 +224,13 @@ theorem keys_foldl_nodup (g : α → κ) (w : α → ν) (xs : List α) (m : GoM
 
 /-- `result[g v]++` over a list -/
 theorem get?_foldl_count (g : α → κ) (xs : List α) (m : GoMap κ Nat) (k : κ) :
-    (xs.foldl (fun (m : GoMap κ Nat) v => m.set (g v) ((m.get? (g v)).getD 0 + 1)) m).get? k =
+    (xs.foldl (Src.countStep g) m).get? k =
       (if xs.countP (fun v => g v = k) = 0 then m.get? k
        else some ((m.get? k).getD 0 + xs.countP (fun v => g v = k))) := by
   induction xs generalizing m with
   | nil => simp
   | cons x xs ih =>
-    simp only [List.foldl_cons, ih, get?_set, List.countP_cons]
+    simp only [List.foldl_cons, ih, Src.countStep, get?_set, List.countP_cons]
     by_cases h : g x = k
     · subst h
       simp only [if_true, decide_true, Option.getD_some]
@@ -243,21 +242,15 @@ theorem get?_foldl_count (g : α → κ) (xs : List α) (m : GoMap κ Nat) (k : 
     · simp [h]
 
 theorem keys_foldl_count_nodup (g : α → κ) (xs : List α) (m : GoMap κ Nat) (h : m.keys.Nodup) :
-    (xs.foldl (fun (m : GoMap κ Nat) v => m.set (g v) ((m.get? (g v)).getD 0 + 1)) m).keys.Nodup := by
+    (xs.foldl (Src.countStep g) m).keys.Nodup := by
   induction xs generalizing m with
   | nil => exact h
   | cons x xs ih => exact ih _ (keys_set_nodup m _ _ h)
 
-/-- the consumer closure of CollectToMap -/
-def toMapStep (kv : α → κ × ν) (result : GoMap κ ν) (src : α) : Except Err (GoMap κ ν) :=
-  match result.get? (kv src).1 with
-  | some _ => .error .dupKey
-  | none => .ok (result.set (kv src).1 (kv src).2)
-
 /-- no duplicate: the loop runs to the provider's end and the map has exactly the produced associations -/
 theorem toMap_loop_ok (kv : α → κ × ν) (xs : List α) (fail : Option Err) (m : GoMap κ ν)
     (hnd : (xs.map (fun x => (kv x).1)).Nodup) (hfresh : ∀ x ∈ xs, (kv x).1 ∉ m.keys) :
-    ∃ m', Src.consumeLoop (toMapStep kv) xs fail m = (m', fail) ∧
+    ∃ m', Src.consumeLoop (Src.collectToMapStep kv) xs fail m = (m', fail) ∧
       (∀ k v, m'.get? k = some v ↔ (m.get? k = some v ∨ ∃ x ∈ xs, kv x = (k, v))) ∧
       (m.keys.Nodup → m'.keys.Nodup) := by
   induction xs generalizing m with
@@ -272,7 +265,7 @@ theorem toMap_loop_ok (kv : α → κ × ν) (xs : List α) (fail : Option Err) 
       · exact hfresh y (List.mem_cons_of_mem _ hy) h
     obtain ⟨m', h1, h2, h3⟩ := ih (m.set (kv x).1 (kv x).2) hnd.2 hfresh'
     refine ⟨m', ?_, ?_, fun hm => h3 (keys_set_nodup m _ _ hm)⟩
-    · simp only [Src.consumeLoop, toMapStep, hx, h1]
+    · simp only [Src.consumeLoop, Src.collectToMapStep, hx, h1]
     · intro k v
       rw [h2, get?_set]
       constructor
@@ -293,11 +286,11 @@ theorem toMap_loop_ok (kv : α → κ × ν) (xs : List α) (fail : Option Err) 
 /-- a duplicate (among the produced keys, or with a key already in the map): the loop ends with `dupKey` -/
 theorem toMap_loop_dup (kv : α → κ × ν) (xs : List α) (fail : Option Err) (m : GoMap κ ν)
     (h : ¬ ((xs.map (fun x => (kv x).1)).Nodup ∧ ∀ x ∈ xs, (kv x).1 ∉ m.keys)) :
-    (Src.consumeLoop (toMapStep kv) xs fail m).2 = some .dupKey := by
+    (Src.consumeLoop (Src.collectToMapStep kv) xs fail m).2 = some .dupKey := by
   induction xs generalizing m with
   | nil => simp at h
   | cons x xs ih =>
-    simp only [Src.consumeLoop, toMapStep]
+    simp only [Src.consumeLoop, Src.collectToMapStep]
     cases hx : m.get? (kv x).1 with
     | some v => rfl
     | none =>
@@ -398,15 +391,22 @@ theorem sampleInv_init (k : Nat) : SampleInv k ([] : List α) ([], 0) :=
 /-! ### iterator -/
 
 /-- the loop body of the harness: remember the value, `break` when `n == j` (n = values seen before) -/
+def contAt (j : Option Nat) (n : Nat) : Bool :=
+  match j with | none => true | some j => n != j
+
 def recBody (j : Option Nat) (seen : List α) (v : α) : List α × Bool :=
-  (seen ++ [v], match j with | none => true | some j => seen.length != j)
+  (seen ++ [v], contAt j seen.length)
+
+/-- the same loop body over `IndexedIterator`: remembers (index, value) -/
+def recBodyIdx (j : Option Nat) (seen : List (Nat × α)) (i : Nat) (v : α) : List (Nat × α) × Bool :=
+  (seen ++ [(i, v)], contAt j seen.length)
 
 theorem iterFirst_noBreak (xs : List α) (fail : Option Err) (seen : List α) :
     Src.iterFirst (recBody none) xs fail seen =
       (seen ++ xs, match fail with | some e => .error e | none => .ok none) := by
   induction xs generalizing seen with
   | nil => simp only [Src.iterFirst, List.append_nil]; cases fail <;> rfl
-  | cons x xs ih => simp [Src.iterFirst, recBody, ih]
+  | cons x xs ih => simp [Src.iterFirst, recBody, contAt, ih]
 
 theorem iterFirst_break (j : Nat) (xs : List α) (fail : Option Err) (seen : List α) (h : seen.length ≤ j) :
     (Src.iterFirst (recBody (some j)) xs fail seen).1 = seen ++ xs.take (j + 1 - seen.length) ∧
@@ -416,7 +416,7 @@ theorem iterFirst_break (j : Nat) (xs : List α) (fail : Option Err) (seen : Lis
   induction xs generalizing seen with
   | nil => simp only [Src.iterFirst]; cases fail <;> simp
   | cons x xs ih =>
-    simp only [Src.iterFirst, recBody]
+    simp only [Src.iterFirst, recBody, contAt]
     by_cases hj : seen.length = j
     · subst hj
       simp
@@ -433,5 +433,34 @@ theorem iterFirst_break (j : Nat) (xs : List α) (fail : Option Err) (seen : Lis
         have e : j - seen.length = (j - (seen.length + 1)) + 1 := by omega
         rw [e]
         simp only [List.length_cons, Nat.add_le_add_iff_right, List.getElem?_cons_succ]
+
+/-- the indexed loop sees the same values as the plain one, numbered from the number of values seen before -/
+theorem iterFirst_idx (j : Option Nat) (xs : List α) (fail : Option Err) (st : List (Nat × α)) (acc : List α)
+    (h1 : st.map (·.2) = acc) (h2 : st.map (·.1) = List.range st.length) :
+    ((Src.iterFirst (fun (q : List (Nat × α) × Nat) v =>
+        (((recBodyIdx j q.1 q.2 v).1, q.2 + 1), (recBodyIdx j q.1 q.2 v).2)) xs fail (st, st.length)).1.1.map (·.2)
+      = (Src.iterFirst (recBody j) xs fail acc).1) ∧
+    ((Src.iterFirst (fun (q : List (Nat × α) × Nat) v =>
+        (((recBodyIdx j q.1 q.2 v).1, q.2 + 1), (recBodyIdx j q.1 q.2 v).2)) xs fail (st, st.length)).1.1.map (·.1)
+      = List.range (Src.iterFirst (fun (q : List (Nat × α) × Nat) v =>
+        (((recBodyIdx j q.1 q.2 v).1, q.2 + 1), (recBodyIdx j q.1 q.2 v).2)) xs fail (st, st.length)).1.1.length) ∧
+    ((Src.iterFirst (fun (q : List (Nat × α) × Nat) v =>
+        (((recBodyIdx j q.1 q.2 v).1, q.2 + 1), (recBodyIdx j q.1 q.2 v).2)) xs fail (st, st.length)).2
+      = (Src.iterFirst (recBody j) xs fail acc).2) := by
+  induction xs generalizing st acc with
+  | nil => exact ⟨h1, h2, rfl⟩
+  | cons x xs ih =>
+    have hlen : acc.length = st.length := by rw [← h1]; simp
+    have h1' : (st ++ [(st.length, x)]).map (·.2) = acc ++ [x] := by simp [h1]
+    have h2' : (st ++ [(st.length, x)]).map (·.1) = List.range (st ++ [(st.length, x)]).length := by
+      simp [h2, List.range_succ]
+    have hl' : (st ++ [(st.length, x)]).length = st.length + 1 := by simp
+    have := ih (st ++ [(st.length, x)]) (acc ++ [x]) h1' h2'
+    rw [hl'] at this
+    simp only [recBodyIdx] at this
+    simp only [Src.iterFirst, recBodyIdx, recBody, hlen]
+    by_cases hb : contAt j st.length = true
+    · simp only [hb, if_true]; exact this
+    · simp only [hb]; exact ⟨h1', h2', rfl⟩
 
 end ShpanVerif.Proofs.C04Ext
